@@ -283,15 +283,16 @@ class Material(MutableMapping[str, str]):
 
     def export(self, f: TextIO) -> None:
         """Write the material back to a file."""
-        f.write(self.shader + '\n\t{\n')
+        def quote(text: str) -> str:
+            """Add quotes if the text can't be written bare."""
+            # Blank strings, and ones that would begin a comment or directive.
+            if not text or text[0] in '/#' or any(c in BARE_DISALLOWED for c in text):
+                return f'"{text}"'
+            return text
+
+        f.write(quote(self.shader) + '\n\t{\n')
         for param in self._params.values():
-            name = param.name
-            value = param.value
-            if any(c in BARE_DISALLOWED for c in name):
-                name = f'"{name}"'
-            if not value or any(c in BARE_DISALLOWED for c in value):
-                value = f'"{value}"'
-            f.write(f'\t{name} {value}\n')
+            f.write(f'\t{quote(param.name)} {quote(param.value)}\n')
         for block in self.blocks:
             block.serialise(f, start_indent='\t')
         if self.proxies:
